@@ -28,9 +28,13 @@ def py_plain(cfg):
         if j["sched"]:
             if j.get("window") or (i != 0 and j["forever"]):
                 return False
-        elif j["dur"] is None or j["forever"] or j["sdur"] != 0:
+        elif j["dur"] is None or j["forever"] or j["sdur"] is None:
             return False
     return py_slack(cfg)
+
+
+def slow_handlers(cfg):
+    return any((not j["sched"]) and j["sdur"] for j in cfg["jobs"])
 
 
 def py_schedule(cfg):
@@ -51,7 +55,10 @@ def py_schedule(cfg):
     def end(x):
         if E[x] is None:
             if jobs[x]["sched"]:
-                E[x] = max([start(x)] + [end(y) for y in kids.get(x, [])])
+                d = max([0] + [jobs[y]["sdur"] or 0 for y in kids.get(x, []) if not jobs[y]["sched"]])
+                if jobs[x].get("sdto") is not None:
+                    d = min(d, jobs[x]["sdto"])
+                E[x] = max([start(x)] + [end(y) for y in kids.get(x, [])]) + d
             else:
                 E[x] = start(x) + (jobs[x]["dur"] or 0)
         return E[x]
@@ -68,7 +75,13 @@ def py_slack(cfg):
     if any((not j["sched"]) and j["dur"] is None for j in cfg["jobs"]):
         return False
     S, E = py_schedule(cfg)
-    return all(E[i] < S[i] + j["timeout"] for i, j in enumerate(cfg["jobs"]) if j["sched"] and j.get("timeout") is not None)
+    return all(main_end(cfg, S, E, i) < S[i] + j["timeout"] for i, j in enumerate(cfg["jobs"])
+               if j["sched"] and j.get("timeout") is not None)
+
+
+def main_end(cfg, S, E, n):
+    """instant at which the main loop of scheduler n ends (its shutdown phase begins)"""
+    return max([S[n]] + [E[y] for y in range(1, len(cfg["jobs"])) if cfg["jobs"][y]["parent"] == n])
 
 
 def add_slack_timeouts(cfg, rnd):
@@ -76,7 +89,7 @@ def add_slack_timeouts(cfg, rnd):
     S, E = py_schedule(cfg)
     for i, j in enumerate(cfg["jobs"]):
         if j["sched"] and rnd.random() < 0.6:
-            j["timeout"] = E[i] - S[i] + rnd.randint(1, 3)
+            j["timeout"] = main_end(cfg, S, E, i) - S[i] + rnd.randint(1, 3)
     return cfg
 
 
@@ -187,10 +200,23 @@ def compare(cfg, tl, S, E, names=None):
 
 def model_schedules(cfgs):
     """op 104 for each configuration -> list of None (not plain / not decodable) or (S, E)"""
-    outs = core.run_driver([[104] + enc_cfg(c) for c in cfgs])
+    outs = core.run_driver([[106 if slow_handlers(c) else 104] + enc_cfg(c) for c in cfgs])
     res = []
     for c, o in zip(cfgs, outs):
         n = len(c["jobs"])
+        if slow_handlers(c):
+            # op 106: wf, plainH, is_scheduleHb, slack of the main loops, S, E
+            if not o or o[0] != 1 or len(o) != 5 + 2 * n:
+                res.append(("undecodable", None, None))
+            elif o[1:5] != [1, 1, 1, 1]:
+                res.append(("model-refuses:wf,plainH,solver-check,slack=%s" % o[1:5], None, None))
+            else:
+                S, E = o[5:5 + n], o[5 + n:5 + 2 * n]
+                if (S, E) != tuple(py_schedule(c)):
+                    res.append(("solver-differs-from-direct-recursion", None, None))
+                else:
+                    res.append(("ok", S, E))
+            continue
         if not o or o[0] != 1 or len(o) != 6 + 2 * n:
             res.append(("undecodable", None, None))
         elif o[1] != 1:
@@ -252,6 +278,10 @@ def evaluate_plain(cases, pool_map):
                                                 "instants its requirements determine (each job starts when its last "
                                                 "requirement ends, its scheduler having begun)", "differences": d[:6]})
             continue
+        if slow_handlers(cfg):
+            # the flattened graph legitimately differs (known finding F10): only the tree itself is
+            # compared with the schedule (theorem runs_on_scheduleH)
+            continue
         if c2 is None:
             problems[i] = ("mismatch", {"what": "harness could not order the flattened graph"})
             continue
@@ -298,7 +328,9 @@ PLAIN_PROFILE = {"window": 0.0, "timeout": 0.0, "root_timeout": 0.0, "forever": 
 
 SCHED_RULE = (" Closed-form schedule: a quarter as many additional plain trees (no window, forever or never-ending job, "
               "handlers of zero duration; nesting up to depth 3, raising and critical jobs allowed; half of them with "
-              "timeouts on random schedulers that their schedule does not reach) are generated; for each, and for every such "
+              "timeouts on random schedulers that their schedule does not reach, a third with shutdown handlers of 1-3 time "
+              "units on random jobs: schedule with shutdown phases, solveH / is_scheduleHb, driver op 106, theorem "
+              "runs_on_scheduleH, no flattened-graph comparison for those) are generated; for each, and for every such "
               "tree of the main batch, the extracted model computes the start and end instant of every job (solve, accepted "
               "only if is_scheduleb and slackb hold: driver op 104; also compared with a direct recursion written in the "
               "harness), the implementation is run and every body entry/exit strictly before the first instant at which a "
@@ -319,6 +351,10 @@ class WithSchedule:
             mj = rnd.choice([3, 5, 8, 12, 14])
             cfg = rgen.gen_config(rnd, max_jobs=mj, profile=PLAIN_PROFILE)
             if py_plain(cfg):
+                if rnd.random() < 0.3:
+                    for j in cfg["jobs"]:
+                        if not j["sched"] and rnd.random() < 0.5:
+                            j["sdur"] = rnd.randint(1, 3)
                 if rnd.random() < 0.5:
                     add_slack_timeouts(cfg, rnd)
                 out.append(cfg)
